@@ -16,9 +16,12 @@ from treelib import T, O, XL
 PROP = "C09"
 HEADER = '''Require Import WS Tree. From Coq Require Import List ZArith Bool Arith. Import ListNotations.
 Definition insertion (o : op) := match o with OWrapOff _ _ _ _ | OWrapRe _ _ _ | OInsert _ _ | OInsertRange _ _ _ _ => true | _ => false end.
-Definition stripping (o : op) := match o with OStripTags _ _ | OStripElems => true | _ => false end.
+Definition stripping (o : op) := match o with OStripTags _ _ | OStripElems | OStripDefault _ _ _ => true | _ => false end.
 Definition top_eq (x y : node) := match x, y with Node k a _ _ _ tl, Node k' a' _ _ _ tl' =>
   kind_eqb k k' && Nat.eqb a a' && str_eqb (oget tl) (oget tl') end.
+Definition top_ok (o : op) (x y : node) := match o with
+  | OStripDefault _ _ a0 => match y with Node k a _ _ _ tl => kind_eqb k KP && Nat.eqb a a0 && str_eqb (oget tl) [] end
+  | _ => top_eq x y end.
 (* 0 agree | 1 text differs from what the property requires | 2 markup sits elsewhere / wraps something else than the model says
    3 error behaviour (raises or not; partial modification) | 4 strip changed the text exactly as the modelled " +" rewrite does (F16 class)
    5 insertion changed the text exactly as the model predicts (negative offset class) | 6 composite call differs from its two documented steps
@@ -45,9 +48,9 @@ Definition chk (c : node * op * bool * node) : nat :=
   | None => if raised && evs_eqb (nview qc) (nview pc) then 0 else 3
   | Some m =>
      if raised then 3 else
-     let agree := evs_eqb (nview m) (nview qc) && top_eq pre post in
+     let agree := evs_eqb (nview m) (nview qc) && top_ok o pre post in
      if insertion o && negb (str_eqb (readable_ev qc) (readable_ev pc)) then (if agree then 5 else 1)
-     else if stripping o && negb (str_eqb (raw qc) (raw pc)) then (if agree then 4 else 1)
+     else if stripping o && negb (str_eqb (raw qc) (match o with OStripDefault _ _ _ => raw (flat pre) | _ => raw pc end)) then (if agree then 4 else 1)
      else if negb (str_eqb (readable_ev qc) (readable_ev m)) then 1
      else if negb agree then (match o with OSame => 6 | _ => 2 end)
      else if evs_eqb m qc then 0 else 9
@@ -240,6 +243,20 @@ class Run:
             return self.strip(q, st, 'OStripTags [KSpan] true', lambda: q.remove_spans(), (), hid, si)
         if k == 'remove_links':
             return self.strip(q, st, 'OStripTags [KLink] false', lambda: q.remove_links(), (), hid, si)
+        if k == 'remove_spans_on':      # Span.remove_spans(): the element itself is stripped, a new text:p is returned
+            cand = [e for e in xs if e.tag == T + 'span']
+            if not cand:
+                return None
+            x = cand[st['idx'] % len(cand)]
+            el = o.Element.from_tag(x)
+            pre = tl.abs_node(x, c)
+            raised, res, err = self.call(lambda: el.remove_spans())
+            if not raised and not isinstance(res, o.Element):
+                raised, err = True, "returned %r instead of an element" % type(res)
+            post = tl.abs_node(tl.lx(res), c) if not raised else pre
+            self.emit(pre, 'OStripDefault [KSpan] true %d' % c.attr(T + 'p', {}), raised, post, dict(hid=hid, step=si, st=st, err=err))
+            self.hist[k] = self.hist.get(k, 0) + 1
+            return raised
         if k in ('remove_span', 'remove_link'):
             tag = T + ('span' if k == 'remove_span' else 'a')
             cand = [e for e in xs if e.tag == tag]
@@ -328,7 +345,8 @@ def gen_insertion(rng, L, edge):
 def removals(rng, nel):
     rs = [dict(k='remove_spans'), dict(k='remove_links'),
           dict(k='remove_span', idx=[rng.randint(0, 5)], single=True), dict(k='remove_span', idx=[rng.randint(0, 5), rng.randint(0, 5)]),
-          dict(k='remove_link', idx=[rng.randint(0, 5)], single=rng.random() < .5)]
+          dict(k='remove_link', idx=[rng.randint(0, 5)], single=rng.random() < .5),
+          dict(k='remove_spans_on', idx=rng.randint(0, 5)), dict(k='remove_spans_on', idx=rng.randint(0, 5))]
     for i in range(nel):
         rs.append(dict(k='delete_self', idx=i))
         rs.append(dict(k='delete', idx=i, keep=rng.random() < .8))
@@ -360,7 +378,7 @@ def run_history(R, h, hid):
     else:
         for si, st in enumerate(given):
             steps.append(st)
-            if st['k'] in ('remove_spans', 'remove_links', 'remove_span', 'remove_link', 'delete', 'delete_self'):
+            if st['k'] in ('remove_spans', 'remove_links', 'remove_span', 'remove_link', 'remove_spans_on', 'delete', 'delete_self'):
                 R.removal(p, st, hid, si)
             else:
                 R.insertion(p, st, hid, si)
@@ -375,7 +393,7 @@ def squeeze(s):
 def classify(code, meta):
     """returns a known-finding key or None"""
     st = meta['st']
-    if code == 4 and squeeze(tl.raw(meta['pre'])) == squeeze(tl.raw(meta['post'])):
+    if code == 4 and squeeze(tl.raw(meta['pre']) + ((meta['pre'][5] or '') if st['k'] == 'remove_spans_on' else '')) == squeeze(tl.raw(meta['post'])):
         return "strip_tags/double-space-created-by-concatenation"
     return None
 
@@ -395,6 +413,8 @@ def py_oracle(meta):
             return None
         return None if tl.readable(pre) == tl.readable(post) else "insertion changed the readable text"
     if st['k'].startswith('remove'):
+        if st['k'] == 'remove_spans_on':     # the element's own tail is embedded too
+            return None if squeeze(tl.raw(pre) + (pre[5] or '')) == squeeze(tl.raw(post)) else "stripping changed characters other than runs of spaces"
         if tl.raw(pre) == tl.raw(post): return None
         return None if squeeze(tl.raw(pre)) == squeeze(tl.raw(post)) else "stripping changed characters other than runs of spaces"
     return None
